@@ -8,16 +8,18 @@ import numpy as np
 
 from sim import filgen
 from sim import transforms as T
-from sim.core import open_reader, Rejected, SimLivelock, Violation
+from sim.core import nint, open_reader, Rejected, SimLivelock, Violation
 from sim.disk import SimDisk
 
 from .c02 import after_list_removal  # noqa: F401
 from .c07 import blocks_of
 
 ID = "C11"
+VARY_ARGFORM = True  # integer call arguments also arrive as numpy integer scalars
 GUARD_KERNELS = True
 SHRINK_LISTS = ("ops", "faults", "pre", ("files", "nsamps"))
 SHRINK_MIN = {"nchans": 1, "nbits": 8, "gulp": 1, "nbins": 1, "nints": 1, "nbands": 1, "n": 10}
+SHRINK_SIMPLE = {"argform": "int"}
 C = 299792458.0
 TSAMP = 0.001
 
@@ -51,7 +53,7 @@ def generate(rng, tier) -> dict:
         nfiles = rng.choice([1, 1, 2])
         counts = [rng.randint(20, mx // nfiles) for _ in range(nfiles)]
         N = sum(counts)
-        spec = {"nbits": nbits, "nchans": nchans, "nsamps": counts, "pad": [0] * nfiles, "vseed": rng.randrange(1 << 16),
+        spec = {"nbits": nbits, "nchans": nchans, "nsamps": counts, "pad": filgen.gen_pads(rng, nfiles, 0), "vseed": rng.randrange(1 << 16),
                 "mode": "small", **T.DISP_BAND}
         dm = T.pick_dm(rng, nchans, max(2, N // 3))
         if pulse:
@@ -113,7 +115,7 @@ def fixup(sc):
         f["nsamps"] = [n for n in f["nsamps"] if n >= 1][:2]
         if not f["nsamps"] or not sc["ops"]:
             return None
-        f["pad"] = [0] * len(f["nsamps"])
+        f["pad"] = (list(f.get("pad") or []) + [0, 0, 0])[: len(f["nsamps"])]
         sc["nbands"] = max(1, sc["nbands"])
         N, nch = sum(f["nsamps"]), f["nchans"]
         if (N * nch) // (sc["nbands"] * sc["nints"] * sc["nbins"]) < 10:
@@ -268,7 +270,7 @@ def execute(sc, ctx) -> None:
         if real_fold is not None:
             K.fold = spy
         try:
-            cube = TimeSeries(data, hdr).fold(period, sc["accel"], nbins=nbins, nints=nints)
+            cube = TimeSeries(data, hdr).fold(period, sc["accel"], nbins=nint(nbins), nints=nint(nints))
         except Violation:
             raise
         except Exception as e:  # noqa: BLE001
@@ -328,7 +330,7 @@ def execute(sc, ctx) -> None:
             if real_fold is not None:
                 K.fold = spy
             try:
-                gkw = {} if gulp is None else {"gulp": gulp}
+                gkw = {} if gulp is None else {"gulp": nint(gulp)}
                 if op.get("reentrant") and not sc["faults"]:
                     state = {"done": False}
 
@@ -345,7 +347,7 @@ def execute(sc, ctx) -> None:
 
                     gkw["allocator"] = alloc
                     ctx.probe("reentrant-fold-inside-allocator")
-                cube = reader.fold(period, sc["dm"], accel=sc["accel"], nbins=nbins, nints=nints, nbands=sc["nbands"], quiet=True, **gkw)
+                cube = reader.fold(period, sc["dm"], accel=sc["accel"], nbins=nint(nbins), nints=nint(nints), nbands=nint(sc["nbands"]), quiet=True, **gkw)
             except SimLivelock as e:
                 raise Violation("C11/Filterbank.fold/livelock", str(e), info) from None
             except Violation:
